@@ -1690,5 +1690,9 @@ class SuccessionDiagram:
         if not self.dag.has_edge(parent_id, child_id):  # type: ignore
             self.dag.add_edge(parent_id, child_id, motif=stable_motif, all_motifs=[stable_motif])  # type: ignore
         else:
-            self.dag.edges[parent_id, child_id]["all_motifs"].append(stable_motif)  # type: ignore
+            # The same edge can be inserted repeatedly (e.g. by another run of the SCC
+            # expansion). Every stable motif is recorded only once.
+            all_motifs = self.dag.edges[parent_id, child_id]["all_motifs"]  # type: ignore
+            if stable_motif not in all_motifs:
+                all_motifs.append(stable_motif)  # type: ignore
         self._update_node_depth(child_id, parent_id)
